@@ -750,6 +750,8 @@ func init() {
 			Old: "\tsm.localAckChannelsMu.Lock()\n\tdefer sm.localAckChannelsMu.Unlock()\n\tsm.localAckChannels[shardID] = ackChan\n", New: "\tsm.localAckChannelsMu.Lock()\n\tsm.localAckChannels[shardID] = ackChan\n\tsm.localAckChannelsMu.Unlock()\n"},
 		Variant{Name: "benign: receive worker defers Done and the latch separately", Property: "C08", File: pst, Benign: true,
 			Old: "\tgo func() {\n\t\tdefer func() {\n\t\t\tshutdownChan.Shutdown()\n\t\t\twg.Done()\n\t\t}()\n\t\t_ = r.recvReplicationMessages(sourceStreamClient, shutdownChan)\n", New: "\tgo func() {\n\t\tdefer wg.Done()\n\t\tdefer shutdownChan.Shutdown()\n\t\t_ = r.recvReplicationMessages(sourceStreamClient, shutdownChan)\n"},
+		Variant{Name: "benign: same edit seen by C04 (O4.2 accepts a direct deferred Shutdown)", Property: "C04", File: pst, Benign: true,
+			Old: "\tgo func() {\n\t\tdefer func() {\n\t\t\tshutdownChan.Shutdown()\n\t\t\twg.Done()\n\t\t}()\n\t\t_ = r.recvReplicationMessages(sourceStreamClient, shutdownChan)\n", New: "\tgo func() {\n\t\tdefer wg.Done()\n\t\tdefer shutdownChan.Shutdown()\n\t\t_ = r.recvReplicationMessages(sourceStreamClient, shutdownChan)\n"},
 		Variant{Name: "benign: last task read through a length local", Property: "C02", File: pst, Benign: true,
 			Old: "\t\t\t\tproxyExclusiveHigh = m.Messages.ReplicationTasks[len(m.Messages.ReplicationTasks)-1].SourceTaskId + 1\n", New: "\t\t\t\tnTasks := len(m.Messages.ReplicationTasks)\n\t\t\t\tproxyExclusiveHigh = m.Messages.ReplicationTasks[nTasks-1].SourceTaskId + 1\n"},
 		Variant{Name: "benign: forward decision with the manager test first", Property: "C09", File: shm, Benign: true,
